@@ -394,13 +394,18 @@ func addsub(exprs []Expr, c Context) Value {
 
 func muldiv(exprs []Expr, c Context) Value {
 	var divs []Expr
-	result := exprs[0].Eval(c)
-	for _, e := range exprs[1:] {
+	var result Value
+	for _, e := range exprs {
 		if u, ok := e.(*Unary); ok && u.Tok == tok.Div {
 			divs = append(divs, u.E)
+		} else if result == nil {
+			result = e.Eval(c)
 		} else {
 			result = OpMul(result, e.Eval(c))
 		}
+	}
+	if result == nil {
+		result = One
 	}
 	if len(divs) > 0 {
 		x := divs[0].Eval(c)
